@@ -73,4 +73,32 @@ theorem C09_same_data (t : Target) (d1 d2 : Decl) (x1 x2 : Expansion) (h1 : expa
   rw [e1] at e2
   exact Option.some.inj e2
 
+/-! ### mode independence of the function bodies translated from /repo/src -/
+
+/-- two resolved configurations of the same enum: every translated string function gives the same result -/
+theorem C09_source (D : Derive) (tg : Target) (md1 md2 : Modes) (h : D.WF) (ht : tg.WF) (v : Int) (hv : v ∈ D.vals) (s : Name) :
+    (md1.asStr ≠ .auto → md2.asStr ≠ .auto → T.asStr D tg md1 v = T.asStr D tg md2 v) ∧
+    (md1.fromStrFn ≠ .auto → md2.fromStrFn ≠ .auto → T.fromStrFn D tg md1 s = T.fromStrFn D tg md2 s) ∧
+    (md1.fromStrTrait ≠ .auto → md2.fromStrFn ≠ .auto → T.fromStrTrait D tg md1 s = T.fromStrFn D tg md2 s) ∧
+    (T.next D tg md1 v = T.next D tg md2 v ∧ T.nextBack D tg md1 v = T.nextBack D tg md2 v) := by
+  refine ⟨fun a b => ?_, fun a b => ?_, fun a b => ?_, ?_⟩
+  · obtain ⟨n1, s1, e1, _⟩ := C03_source D tg md1 h ht a v hv
+    obtain ⟨n2, s2, e2, _⟩ := C03_source D tg md2 h ht b v hv
+    rw [s1] at s2; cases s2; rw [e1, e2]
+  · rw [(C04_source D tg md1 h s).1 a, (C04_source D tg md2 h s).1 b]
+  · rw [(C04_source D tg md1 h s).2 a, (C04_source D tg md2 h s).1 b]
+  · rw [(C05_source D tg md1 h v hv).1, (C05_source D tg md2 h v hv).1, (C05_source D tg md1 h v hv).2, (C05_source D tg md2 h v hv).2]
+    exact ⟨rfl, rfl⟩
+
+/-- two resolved iterator modes: the translated `iter()` gives the same observations under every history -/
+theorem C09_source_iter (D : Derive) (tg : Target) (md1 md2 : Modes) (h : D.WF) (ht : tg.WF)
+    (h1 : md1.iter ≠ .auto) (h2 : md2.iter ≠ .auto) (r1 : md1.iter = .range → D.gapless = true) (r2 : md2.iter = .range → D.gapless = true)
+    (ops : List Op) (fin : Fin) :
+    ∃ s1 s1' s2 s2' outs o, T.iter D tg md1 = .ok s1 ∧ T.iter D tg md2 = .ok s2 ∧
+      T.runT D tg md1 s1 ops = .ok (s1', outs) ∧ T.runT D tg md2 s2 ops = .ok (s2', outs) ∧
+      T.finishT D tg md1 s1' fin = .ok o ∧ T.finishT D tg md2 s2' fin = .ok o := by
+  obtain ⟨s1, s1', a1, a2, a3⟩ := C06_source D tg md1 h ht h1 r1 ops fin
+  obtain ⟨s2, s2', b1, b2, b3⟩ := C06_source D tg md2 h ht h2 r2 ops fin
+  exact ⟨s1, s1', s2, s2', _, _, a1, b1, a2, b2, a3, b3⟩
+
 end ET.Thm
